@@ -1,6 +1,7 @@
 """C16 -- memory safety: index-range theorems (proof) + every component under ASan/UBSan/assertions (exploration)."""
 import os
 import gen, vf, files, oracles, cli
+from C03 import degenerate_e2e
 
 
 def run(ctx):
@@ -23,6 +24,7 @@ def run(ctx):
     comps = [('K-GRAPH', [gen.gen_graph_random(rng.fork('g%d' % k), k)[0] for k in range(ctx.budget(400, 10000))]),
              ('K-UPD', [gen.gen_upd(rng.fork('u%d' % k), k)[0] for k in range(ctx.budget(500, 20000))]),
              ('K-E2E', [gen.gen_e2e(rng.fork('e%d' % k), k, maxit_max=30, r_max=3, prior=rng.choice(['zero', 'garbage']))[0] for k in range(ctx.budget(300, 10000))]),
+             ('K-E2E(degenerate: K > L, edgeless networks, zero affinity layers)', [degenerate_e2e(rng.fork('d%d' % k), 50000 + k)[0] for k in range(ctx.budget(200, 5000))]),
              ('K-LAYOUT', gen.layout_cases(4))]
     for name, cs in comps:
         res = ctx.component(name + ' (implementation only)', cs, model=False)
@@ -83,9 +85,22 @@ def run(ctx):
                            'output': out[-2000:]})
     n_eval += runs
     # crashes of any in-process component are violations with the failing case
+    comp_cases = dict((n + ' (implementation only)', cs) for n, cs in comps)
+    comp_cases['K-PARSE(malformed, implementation only)'] = mal
     for name, st in ctx.components.items():
         for c in st.get('crash_samples', []):
-            ctx.violation('memory:' + name, 'sanitizer report / assertion failure / abnormal exit in component %s' % name, {'case': c['case'], 'output': c['output']})
+            case = c['case']
+            if case is None and name in comp_cases:
+                # a report at process exit (leak): bisect by running the cases one per process
+                import os as _os
+                for line in comp_cases[name][:400]:
+                    cp = _os.path.join(vf.workdir(), 'one.cases')
+                    open(cp, 'w').write(line + '\n')
+                    rc1, out1 = vf.run_impl(ctx.bdir, cp, cp + '.out', timeout=120)
+                    if rc1 != 0:
+                        case, c = line, {'output': out1[-2500:], 'rc': rc1}
+                        break
+            ctx.violation('memory:' + name, 'sanitizer report / assertion failure / abnormal exit in component %s' % name, {'case': case, 'output': c['output']})
     # a crash already recorded as tie failure is the SAME event: keep only the violation
     ctx.tie_failures = [t for t in ctx.tie_failures if 'process exit' not in t]
     ctx.oracle.update({'evaluations': n_eval, 'distinct_nontrivial': len(keys), 'malformed_kinds': kinds, 'binary_runs': runs, 'binary_outcomes': outcomes,
